@@ -15,7 +15,7 @@ import copy
 import re
 
 from . import core
-from .catalogue import in_a, in_b, out_ts, out_y, out_z
+from .catalogue import in_a, in_b, out_ts, out_tsk, out_y, out_z
 from .edl import AND, C, OR, P, block, build_engine, engine, rule
 from .tlc import MachineryError, write_cfg
 from .xreal import Q, to_float
@@ -40,6 +40,10 @@ def bases():
     es.append(engine("weighted-output-in-antecedent", [in_a(), in_b()], [out_ts(), out_y()],
                      [block("rb", [rule(P("a", "lo"), [C("u", "c1")]), rule(P("b", "hi"), [C("u", "c1")], weight="1/2"), rule(P("a", "md"), [C("u", "c2")]),
                                    rule(OR(P("u", "c1"), P("u", "c2", "not")), [C("y", "m")]), rule(AND(P("u", "c1"), P("a", "hi")), [C("y", "l")])])]))
+    # two weighted outputs of different kinds (Tsukamoto terms, then Takagi-Sugeno terms), both left on Automatic
+    es.append(engine("weighted-two-kinds", [in_a(), in_b()], [out_tsk(), out_ts()],
+                     [block("rb", [rule(P("a", "lo"), [C("w", "up"), C("u", "c1")]), rule(P("b", "hi"), [C("u", "lin"), C("w", "dn")], weight="1/2"),
+                                   rule(P("a", "hi"), [C("w", "cv")])], implication="none")]))
     e = engine("disabled-rule-uses-or", [in_a(), in_b()], [out_y()], [block("rb", [copy.deepcopy(r_plain), dict(copy.deepcopy(r_or), enabled=False)])])
     es.append(e)
     e = engine("disabled-output", [in_a(), in_b()], [out_y(enabled=False), out_z()],
@@ -110,42 +114,52 @@ def run(ctx: core.Ctx):
         case = cases[rec["cid"]]
         E = copy.deepcopy(case["engine"])
         removed = [r for r, m in zip(case["removable"], rec["mask"]) if m]
-        e = build_engine(fl, case["engine"])
-        for r in removed:
-            comp = e.rule_blocks[r["idx"] - 1] if r["where"] == "block" else e.output_variables[r["idx"] - 1]
-            setattr(comp, r["field"], None)
-        errors = []
-        ready = e.is_ready(errors)
-        got = tags_of(e, errors)
-        want = {(t[0], t[1]) for t in rec["errors"]}
-        ctx.count()
-        desc = {"engine": case["engine"]["name"], "removed": [f"{r['where']}{r['idx']}.{r['field']}" for r in removed]}
-        if ready != (not errors):
-            ctx.violation("Engine.is_ready/return-value", desc, not errors, ready)
-        for t in sorted(want - got):
-            ctx.violation(f"Engine.is_ready/not-reported/{t[0]}", dict(desc, errors=errors), sorted(want), sorted(got), note=f"missing {t[0]} of component {t[1]} is needed but not reported")
-        for t in sorted(got - want):
-            if t[0].startswith("unrecognised"):
-                ctx.violation("Engine.is_ready/unrecognised-message", dict(desc, errors=errors), sorted(want), t[0])
-            else:
-                ctx.extra["model_divergence_over_reported"] = ctx.extra.get("model_divergence_over_reported", 0) + 1
-        for k, row in enumerate(case["rows"]):
-            raised = None
-            try:
-                for iv, x in zip(e.input_variables, row):
-                    iv.value = to_float(x)
-                e.process()
-            except Exception as ex:  # noqa
-                raised = f"{type(ex).__name__}: {ex}"
+        for shared in (False, True):
+            e = build_engine(fl, case["engine"])
+            if shared:
+                # components configured the way Engine.configure does it: ONE operator / defuzzifier object serves every
+                # block / output that uses this class with these parameters
+                pool = {}
+                for comp, fields in [(b_, ("conjunction", "disjunction", "implication")) for b_ in e.rule_blocks] + [(v_, ("aggregation", "defuzzifier")) for v_ in e.output_variables]:
+                    for f_ in fields:
+                        x_ = getattr(comp, f_)
+                        if x_ is not None:
+                            setattr(comp, f_, pool.setdefault(repr(x_), x_))
+            for r in removed:
+                comp = e.rule_blocks[r["idx"] - 1] if r["where"] == "block" else e.output_variables[r["idx"] - 1]
+                setattr(comp, r["field"], None)
+            errors = []
+            ready = e.is_ready(errors)
+            got = tags_of(e, errors)
+            want = {(t[0], t[1]) for t in rec["errors"]}
             ctx.count()
-            if not errors and raised:
-                ctx.violation(f"Engine.process/ready-but-raises/{raised.split(':')[0]}", dict(desc, row=[to_float(x) for x in row]), "completes", raised,
-                              note="is_ready reported no error, process() raised")
-            if bool(raised) != bool(rec["raises"][k]):
-                if raised and not rec["raises"][k]:
-                    ctx.violation(f"Engine.process/raises-unexpectedly", dict(desc, row=[to_float(x) for x in row]), "completes", raised)
+            desc = {"engine": case["engine"]["name"], "shared_components": shared, "removed": [f"{r['where']}{r['idx']}.{r['field']}" for r in removed]}
+            if ready != (not errors):
+                ctx.violation("Engine.is_ready/return-value", desc, not errors, ready)
+            for t in sorted(want - got):
+                ctx.violation(f"Engine.is_ready/not-reported/{t[0]}", dict(desc, errors=errors), sorted(want), sorted(got), note=f"missing {t[0]} of component {t[1]} is needed but not reported")
+            for t in sorted(got - want):
+                if t[0].startswith("unrecognised"):
+                    ctx.violation("Engine.is_ready/unrecognised-message", dict(desc, errors=errors), sorted(want), t[0])
                 else:
-                    ctx.extra["model_divergence_raise"] = ctx.extra.get("model_divergence_raise", 0) + 1
+                    ctx.extra["model_divergence_over_reported"] = ctx.extra.get("model_divergence_over_reported", 0) + 1
+            for k, row in enumerate(case["rows"]):
+                raised = None
+                try:
+                    for iv, x in zip(e.input_variables, row):
+                        iv.value = to_float(x)
+                    e.process()
+                except Exception as ex:  # noqa
+                    raised = f"{type(ex).__name__}: {ex}"
+                ctx.count()
+                if not errors and raised:
+                    ctx.violation(f"Engine.process/ready-but-raises/{raised.split(':')[0]}", dict(desc, row=[to_float(x) for x in row]), "completes", raised,
+                                  note="is_ready reported no error, process() raised")
+                if bool(raised) != bool(rec["raises"][k]):
+                    if raised and not rec["raises"][k]:
+                        ctx.violation(f"Engine.process/raises-unexpectedly", dict(desc, row=[to_float(x) for x in row]), "completes", raised)
+                    else:
+                        ctx.extra["model_divergence_raise"] = ctx.extra.get("model_divergence_raise", 0) + 1
         ctx.traces += 1
         ctx.case((rec["cid"], tuple(rec["mask"])), nontrivial=any(rec["mask"]))
         if len(ctx.samples) < 3 and sum(rec["mask"]) == 2:
